@@ -38,6 +38,8 @@ type Prog struct {
 	fileAST      map[string]*ast.File
 	overlayFiles map[string][]byte
 	Norm         *NormReport
+	callSites    map[*ssa.Function][]*ssa.CallCommon
+	usedAsValue  map[*ssa.Function]bool
 }
 
 // LoadOpts selects platform and overlays.
